@@ -18,4 +18,7 @@ pub mod tracing;
 pub mod units;
 
 pub mod tests;
+
+#[cfg(feature = "verif-hooks")]
+pub mod verif;
 pub use tests::util::bgp;
